@@ -89,7 +89,7 @@ fn history<K: AltKey, V: AltVal, S: BuildHasher + Clone>(name: &'static str, mut
         cache.set_max_size(k * entry);
     }
     let check = |cache: &LruCache<K, V, S>, model: &Vec<u32>, what: &str, out: &mut Vec<AltViol>| {
-        let ids: Vec<u32> = cache.keys().map(|k| k.id()).collect();
+        let ids: Vec<u32> = cache.keys().take(cache.len() + 2).map(|k| k.id()).collect();
         if cache.len() != model.len() || ids != *model {
             if out.len() < 4 {
                 out.push(AltViol { props: C04 | C05, class: "alt-types-model", msg: format!("{}: after {} the cache holds {:?} (len {}), the sequential model {:?}", name, what, ids, cache.len(), model) });
@@ -250,8 +250,9 @@ pub fn run_unit(seed: u64) -> (Vec<AltViol>, u64) {
     let mut out = Vec::new();
     let mut rng = Rng::new(seed ^ 0xa17);
     let mut runs = 0;
-    for variant in 0..6 {
+    for variant in 0..5 {
         ctx_reset();
+        set_budget(CALLBACK_BUDGET);
         let k_limit = match rng.below(4) {
             0 => None,
             1 => Some(1 + rng.usize_below(3)),
@@ -297,10 +298,7 @@ pub fn run_unit(seed: u64) -> (Vec<AltViol>, u64) {
                 drop(c);
                 history::<SimKey, SimVal, _>(name, LruCache::with_capacity(usize::MAX, cap), k_limit, &mut rng, &mut out);
             }
-            _ => {
-                name = "LruCache<u32, u64> (nothing to drop)";
-                history::<u32, u64, _>(name, LruCache::with_hasher(usize::MAX, hb), k_limit, &mut rng, &mut out);
-            }
+            _ => unreachable!(),
         }
         name
         }));
@@ -315,6 +313,7 @@ pub fn run_unit(seed: u64) -> (Vec<AltViol>, u64) {
                 "alternative instantiation (panicked)"
             }
         };
+        set_budget(0);
         runs += 1;
         clear_events();
         for m in take_viol() {
